@@ -258,7 +258,8 @@ def run(ctx):
         if ctx.tier == 'quick':
             hw_sel = hw; nrand, stmt = 6, 4
         else:
-            hw_sel = [h for i, h in enumerate(hw) if i % ctx.nshards == ctx.shard] + ([hw[0]] if ctx.shard else [])
+            core = [hw[0], hw[3], hw[10], hw[16]]       # every shard: sets in which the loud outcome certainly occurs
+            hw_sel = core + [h for i, h in enumerate(hw) if i % ctx.nshards == ctx.shard and h not in core]
             nrand, stmt = 26, 8
         for sessions in hw_sel:
             explore(ctx, model, sp, sessions, 'hand', ('hand', hw.index(sessions), ctx.shard), stmt)
@@ -276,7 +277,8 @@ def run(ctx):
     ctx.floor('obs.repeated', 1200)
     ctx.floor('obs.repeated_collection', 150)
     ctx.floor('obs.stale_but_stable', 100)
-    ctx.floor('session.reader.raised.UnrepeatableReadError', 30)
+    # floors are evaluated per shard
+    ctx.floor('session.reader.raised.UnrepeatableReadError', 30 if ctx.nshards == 1 else 8)
 
 
 def replay(ctx, witness):
